@@ -93,6 +93,8 @@ class ProvXMLSerializer(Serializer):
         for namespace in bundle.namespaces:
             if namespace not in nsmap:
                 nsmap[namespace.prefix] = namespace.uri
+        if bundle._namespaces._default:
+            nsmap[None] = bundle._namespaces._default.uri
 
         for key, value in DEFAULT_NAMESPACES.items():
             uri = value.uri
